@@ -19,6 +19,9 @@ Theorem constraint_matches_doc_dilated_product_range : forall kw kh dw dh,
 Proof. exact ConstraintsProofs.constraint_matches_doc_dilated_product_range. Qed.
 Theorem constraint_matches_doc_weights_limit : forall s, constraint_weights_limit s = doc_weights_limit s.
 Proof. exact ConstraintsProofs.constraint_matches_doc_weights_limit. Qed.
+Theorem constraint_matches_doc_bias_40bit : forall has_bias is64 has_values vals,
+  constraint_bias_40bit has_bias is64 has_values vals = doc_bias_40bit has_bias is64 has_values vals.
+Proof. exact ConstraintsProofs.constraint_matches_doc_bias_40bit. Qed.
 Theorem constraint_matches_doc_batch_size : forall ifm ifm2 has_ifm has_ifm2,
   constraint_batch_size ifm ifm2 has_ifm has_ifm2 = doc_batch_size ifm ifm2 has_ifm has_ifm2.
 Proof. exact ConstraintsProofs.constraint_matches_doc_batch_size. Qed.
@@ -69,19 +72,6 @@ Theorem constraint_matches_doc_resizebi_half_pixel_centers_dims : forall ifm ofm
 Proof. exact ConstraintsProofs.constraint_matches_doc_resizebi_half_pixel_centers_dims. Qed.
 
 (* ---- where the code and the sentence differ: what holds (partial) and a witness of the difference (refuted) ---- *)
-(* bias: the code accepts -2^39 < v < 2^40; a 40-bit field holds -2^39 <= v < 2^39 *)
-Theorem constraint_bias_40bit_spec : forall has_bias is64 has_values vals,
-  constraint_bias_40bit has_bias is64 has_values vals =
-  impb (has_bias && is64 && has_values) (forallb (fun v => (- 2 ^ 39 <? v) && (v <? 2 ^ 40)) vals).
-Proof. exact ConstraintsProofs.constraint_bias_40bit_spec. Qed.
-Theorem constraint_matches_doc_bias_40bit_partial : forall has_bias is64 has_values vals,
-  forallb (fun v => negb (v =? - 2 ^ 39) && (v <? 2 ^ 39)) vals = true ->
-  constraint_bias_40bit has_bias is64 has_values vals = doc_bias_40bit has_bias is64 has_values vals.
-Proof. exact ConstraintsProofs.constraint_matches_doc_bias_40bit_partial. Qed.
-Theorem constraint_matches_doc_bias_40bit_refuted :
-  (exists vals, constraint_bias_40bit true true true vals = true /\ doc_bias_40bit true true true vals = false) /\
-  (exists vals, constraint_bias_40bit true true true vals = false /\ doc_bias_40bit true true true vals = true).
-Proof. exact ConstraintsProofs.constraint_matches_doc_bias_40bit_refuted. Qed.
 (* mean: the width bound is applied whether or not the width axis is reduced *)
 Theorem constraint_matches_doc_mean_width_partial : forall shape axis,
   constraint_mean_width shape = true -> doc_mean_width shape axis = true.
@@ -155,7 +145,7 @@ Proof. exact ConstraintsProofs.npu_candidate_iff_report. Qed.
 
 Print Assumptions constraint_matches_doc_stride_range.
 Print Assumptions constraint_matches_doc_stride_width_no_upper_limit_partial.
-Print Assumptions constraint_matches_doc_bias_40bit_refuted.
+Print Assumptions constraint_matches_doc_bias_40bit.
 Print Assumptions constraint_matches_doc_resize.
 Print Assumptions report_lists_enforced.
 Print Assumptions supported_is_conjunction.
